@@ -190,6 +190,14 @@ def check(ctx, rep):
             dcs = [e for e in p.calls() if q.call_name(e) == "cancel" and isinstance(q.recv(e), tuple) and (q.recv(e) in [t for t, val, b in deleg] or (q.recv(e)[0] == "attr" and (q.recv(e)[2] in ftypes or q.recv(e)[2] == DFF)))]
             if deleg and deleg[0][1] is True:
                 rep.ob("R-CANCEL-FWD", "%s.%s forwards to the delegate's cancel()" % (ci.name, hook), len(dcs) >= 1, "a delegate is present but its cancel() is not called [%s]" % sig[:100], where_of(mc), trace_of(p))
+            # a future that sits in its executor's queue (no delegate yet) is cancelled by taking its job out: the
+            # hook has to ask the executor -- answering without doing so leaves the job queued and the callable runs
+            exf = [f for (ck, f), ts in ctx.types.field_types.items() if ck == ci.key and any(t.startswith("C:") and ctx.types.cls_of(t) in [Qx.cls for Qx, _r in queues] for t in ts)]
+            if exf and not (deleg and deleg[0][1] is True):
+                gone = any(q.truth_of(p, ("attr", SELF, f)) is False for f in exf)
+                asked = [e for e in p.calls() if e.d["callee"] is not None and e.d["callee"].owner in [Qx.cls for Qx, _r in queues]]
+                if not gone:
+                    rep.ob("R-CANCEL-FWD", "%s.%s asks its executor about a future that has no delegate yet" % (ci.name, hook), bool(asked), "with no delegate present the hook returns %s without calling into the executor whose queue holds the future's job: the job stays queued, so the request never reaches the pending work [%s]" % (fmt(v), sig[:100]), where_of(mc), trace_of(p))
             removed = [e for Qx, rem in queues for e, j in removal_actions(p, it, Qx, rem)]
             if removed:
                 rep.ob("R-TRUE", "%s.%s: a job taken out of the queue means True" % (ci.name, hook), _may_be_true(v, p) and v != ("const", None), "the future's job is removed from the queue but the hook answers %s: cancel() reports failure, yet nothing will ever run or resolve this future" % fmt(v), where_of(mc), trace_of(p))
